@@ -102,8 +102,9 @@ def gen_ballots(d, nc, cands, maxlines, equal=False, bigmult=False, nseats=1):
     if equal:
         for b in ballots:
             if len(b[1]) >= 2 and d.p(35):
-                i = d.int(0, len(b[1]) - 2)
-                b[1][i:i + 2] = [b[1][i] + b[1][i + 1]]
+                k = min(len(b[1]), d.choice([2, 2, 3, 3, 4]))      # 1/3 and 1/7 do not terminate: shares get truncated
+                i = d.int(0, len(b[1]) - k)
+                b[1][i:i + k] = [[c for rank in b[1][i:i + k] for c in rank]]
     if mode in (4, 5):
         # quota landing: make the total a multiple of seats+1 and give one candidate exactly
         # the Droop quotient (or one more) in first preferences
@@ -404,3 +405,34 @@ def split_merge(d, ballots):
                 merged.append([m, r])
         out = merged
     return out
+
+
+def fractional_landing_case(d):
+    """a hopeful candidate lands exactly on a fractional quota through a surplus transfer: with a = 10^p - 1 first preferences
+    for A, quota m + 10^-p (n = 3m, 2 seats), A's surplus 1 - 10^-p gives a transfer value of exactly 10^-p; one A>B ballot lifts
+    B from m to the quota.  Distinguishes '>=' from '>' in hasQuota for the truncating rules, which random search never hits."""
+    rule, p = d.choice([('wigm-prf', 4), ('wigm-prf-batch', 4), ('cfer', 5), ('cfer-batch', 5), ('wigm', 3), ('wigm', 2), ('wigm', 4)])
+    a = 10 ** p - 1
+    m = a - 1
+    ids = d.perm([1, 2, 3])
+    A, B, C = ids
+    ballots = [[1, [[A], [B]]], [a - 1, [[A]]], [m, [[B]]], [m - 1, [[C]]]]
+    if d.p(50):
+        ballots = d.perm(ballots)
+    opts = {'arithmetic': 'fixed', 'precision': p} if rule == 'wigm' else {}
+    return dict(ncand=3, nseats=2, withdrawn=[], undeclared=[], tie=d.perm([1, 2, 3]), ballots=ballots, title='T', names=None,
+                rule=rule, options=opts)
+
+
+def scotland_threeway_case(d):
+    """a three-way exclusion tie whose most recent differing stage has two candidates sharing the lowest tally:
+    no stage has a unique extreme, so the decision is by lot (tie order), not by candidate number."""
+    ids = d.perm(range(1, 7))
+    X, Y, A, B, C, Dd = ids
+    k = d.int(1, 2)
+    ballots = [[9 * k, [[X]]], [7 * k, [[Y]]], [4 * k, [[A]]], [3 * k, [[B], [C]]], [3 * k, [[C], [B]]],
+               [k, [[Dd], [B], [C]]], [k, [[Dd], [C], [B]]]]
+    if d.p(50):
+        ballots = d.perm(ballots)
+    return dict(ncand=6, nseats=2, withdrawn=[], undeclared=[], tie=d.perm(range(1, 7)), ballots=ballots, title='T',
+                names=None, rule='scotland', options={})
